@@ -10,6 +10,7 @@ import (
 	"strconv"
 	"strings"
 	"testing"
+	"time"
 )
 
 func init() {
@@ -31,6 +32,9 @@ func genC20(r *Rng, tier string, idx int) *Plan {
 	p := &Plan{Profile: "mem", Knobs: map[string]int64{}, SKnobs: map[string]string{}}
 	if idx%2 == 1 {
 		p.Profile = "aof"
+		if idx%8 == 7 {
+			p.Profile = "snap" // SAVE before every restart, restore from the snapshot only
+		}
 		p.SKnobs["restart"] = Pick(r, []string{"clean", "kill"})
 	}
 	p.SKnobs["policy"] = Pick(r, []string{"noeviction", "allkeys-lfu", "volatile-lru"})
@@ -44,6 +48,8 @@ func genC20(r *Rng, tier string, idx int) *Plan {
 	for i := 0; i < n; i++ {
 		c := r.Intn(nconn + 1) // nconn = embedded caller
 		switch x := r.Intn(100); {
+		case x < 5 && p.Profile != "mem":
+			p.Ops = append(p.Ops, Op{Kind: "restart", S: Pick(r, []string{"clean", "kill"})})
 		case x < 14:
 			p.Ops = append(p.Ops, Op{Kind: "select", C: c, N: int64(Pick(r, c20DBs))})
 		case x < 19:
@@ -79,20 +85,30 @@ func runC20(t *testing.T, p *Plan) *Outcome {
 			o.Sig, o.Detail = "C20/"+sig, detail
 		}
 	}
-	if p.Profile == "aof" {
+	if p.Profile != "mem" {
 		_ = os.MkdirAll(root, 0o755)
 		defer os.RemoveAll(root)
 	}
+	var imgs []string
+	defer func() {
+		for _, d := range imgs {
+			os.RemoveAll(d)
+		}
+	}()
 	br := RunBubble(t, func() {
 		s := NewSim()
 		s.install()
 		defer s.uninstall()
 		cfg := BaseConfig
 		cfg.EvictionPolicy = p.SK("policy")
-		if p.Profile == "aof" {
+		switch p.Profile {
+		case "aof":
 			cfg.DataDir = root
 			cfg.RestoreAOF = true
 			cfg.AOFSyncStrategy = "always"
+		case "snap":
+			cfg.DataDir = root
+			cfg.RestoreSnapshot = true
 		}
 		inst, err := s.Boot(1, cfg)
 		if err != nil {
@@ -102,10 +118,66 @@ func runC20(t *testing.T, p *Plan) *Outcome {
 		nconn := int(p.K("conns"))
 		conns := make([]*Client, nconn+1)
 		dbOf := make([]int, nconn+1)
-		for i := 0; i < nconn; i++ {
-			conns[i] = s.NewTCPClient(inst, fmt.Sprintf("c%d", i))
+		gen := 1
+		connect := func() {
+			for i := 0; i < nconn; i++ {
+				conns[i] = s.NewTCPClient(inst, fmt.Sprintf("g%dc%d", gen, i))
+				dbOf[i] = 0
+			}
+			conns[nconn] = s.NewEmbeddedClient(inst, fmt.Sprintf("g%demb", gen))
+			dbOf[nconn] = 0
 		}
-		conns[nconn] = s.NewEmbeddedClient(inst, "emb")
+		connect()
+		// restart: persistence keeps every key in its database; all callers start again on database 0
+		restart := func(kind string, at int) bool {
+			if p.Profile == "snap" {
+				// the clock must move so that the snapshot is newer than the previous one
+				s.AdvanceSync(2 * time.Millisecond)
+				if r := conns[0].DoSync("SAVE"); r.IsError() || r.Panic != "" {
+					fail("db-lost-in-snapshot/save", fmt.Sprintf("SAVE before restart %d: %s", gen, r))
+					return false
+				}
+			}
+			want := StripExpired(inst.DB.VerifDump(), nowMs(), false)
+			if kind == "clean" {
+				inst.DB.ShutDown()
+				s.Settle()
+			}
+			s.KillInstance(gen)
+			img := fmt.Sprintf("%s.img%d", root, gen)
+			copyTree(cfg.DataDir, img)
+			imgs = append(imgs, img)
+			cfg.DataDir = img
+			gen++
+			var err error
+			inst, err = s.Boot(gen, cfg)
+			if err != nil || inst.Panic != "" {
+				fail("db-lost-in-"+p.Profile+"/boot", fmt.Sprintf("restart %d failed: %v %s", gen-1, err, inst.Panic))
+				return false
+			}
+			got := StripExpired(inst.DB.VerifDump(), nowMs(), false)
+			if p.Profile == "snap" {
+				// the snapshot encoding loses or retypes some value kinds (C10's recorded finding); here only
+				// the PLACEMENT is judged: no key shows up in a database that did not hold it, and scalar keys stay
+				for k := range got {
+					if _, ok := want[k]; !ok {
+						fail("db-lost-in-snap/moved", fmt.Sprintf("restart %d: key %s exists after the snapshot restore but not before it; before: %v", gen-1, k, sortedKeys(want)))
+						return false
+					}
+				}
+				for k, v := range want {
+					if _, ok := got[k]; !ok && (strings.HasPrefix(v, "string:") || strings.HasPrefix(v, "int:") || strings.HasPrefix(v, "float:")) {
+						fail("db-lost-in-snap/missing", fmt.Sprintf("restart %d: key %s (%s) is missing after the snapshot restore; restored: %v", gen-1, k, v, sortedKeys(got)))
+						return false
+					}
+				}
+			} else if !mapsEqual(got, want) {
+				fail("db-lost-in-"+p.Profile+"/"+kind, fmt.Sprintf("restart %d (%s, before op %d) the per-database datasets differ: %s", gen-1, kind, at, DiffData(got, want, "restored", "before", 5)))
+				return false
+			}
+			connect()
+			return true
+		}
 		// full white-box view: dataset + bookkeeping per database
 		view := func() map[int]string {
 			st := inst.DB.VerifDump()
@@ -143,6 +215,12 @@ func runC20(t *testing.T, p *Plan) *Outcome {
 			}
 			c := op.C % (nconn + 1)
 			switch op.Kind {
+			case "restart":
+				if p.Profile == "mem" {
+					continue
+				}
+				names = append(names, "RESTART")
+				restart(op.S, i)
 			case "select":
 				names = append(names, fmt.Sprintf("SELECT%d", op.N))
 				before := view()
@@ -253,27 +331,8 @@ func runC20(t *testing.T, p *Plan) *Outcome {
 			}
 		}
 		// persistence keeps every key in its database
-		if o.Sig == "" && p.Profile == "aof" {
-			st := inst.DB.VerifDump()
-			want := DataMap(st, false)
-			if p.SK("restart") == "clean" {
-				inst.DB.ShutDown()
-				s.Settle()
-			}
-			s.KillInstance(1)
-			img := root + ".img"
-			copyTree(root, img)
-			defer os.RemoveAll(img)
-			cfg.DataDir = img
-			inst2, err := s.Boot(2, cfg)
-			if err != nil || inst2.Panic != "" {
-				fail("db-lost-in-aof/boot", fmt.Sprintf("restart failed: %v %s", err, inst2.Panic))
-				return
-			}
-			got := DataMap(inst2.DB.VerifDump(), false)
-			if !mapsEqual(got, want) {
-				fail("db-lost-in-aof/"+p.SK("restart"), fmt.Sprintf("after an AOF restart (%s) the per-database datasets differ: %s", p.SK("restart"), DiffData(got, want, "restored", "before", 5)))
-			}
+		if o.Sig == "" && p.Profile != "mem" {
+			restart(p.SK("restart"), len(p.Ops))
 		}
 		o.Stats = s.Stats
 	})
